@@ -235,6 +235,34 @@ def run_instance(ctx, rng, cls, suite="K5.mpe"):
     return inst, res
 
 
+def overshoot_instance(rng, cls):
+    """a 2-cycle a<->b entered from s and left to t whose cycle values are not a multiple of the value entering it: the best
+    walk goes round several times and weight x multiplicity exceeds the largest value on some edge (the products pi / gamma
+    are then bounded by w_max only); now and then an independent edge x->y that needs a walk of its own"""
+    pin = rng.choice([1, 2, 2, 3, 3])
+    c = rng.randint(pin + 1, 2 * pin + 2)
+    c2 = rng.randint(max(1, c - pin - 1), c)
+    fl = {("s", "a"): pin, ("a", "b"): c, ("b", "a"): c2, ("b", "t"): rng.choice([pin, pin, pin + 1])}
+    nodes = ["s", "a", "b", "t"]
+    if rng.random() < 0.5:
+        fl[("x", "y")] = rng.randint(1, 3); nodes += ["x", "y"]
+    order = list(nodes); rng.shuffle(order)
+    return {"cls": cls, "nodes": order, "edges": [list(e) for e in fl], "origin": "edge", "weight_type": "int", "ignore": [],
+            "starts": [], "ends": [], "scaling": [], "options": {}, "flow": [[u, v, str(q)] for (u, v), q in fl.items()], "k": 2}
+
+
+def run_overshoot(ctx, rng, n, suite="K5.mpe_overshoot"):
+    for _ in range(n):
+        inst = overshoot_instance(rng, "kMinPathErrorCycles")
+        ug = errors.UG(inst)
+        cover = ug.min_cover()
+        if cover is None or cover < 1 or cover > 2:
+            continue
+        for k in (cover, cover + 1):
+            if k <= 2 or len(inst["edges"]) <= 4:
+                mpe_case(ctx, dict(inst, k=k), ug=ug, cover=cover, suite=suite)
+
+
 def run(ctx):
     rng = ctx.rng
     k2.run_k2(ctx, K2_ADAPTERS, ctx.n(80, 1500))
@@ -246,6 +274,7 @@ def run(ctx):
             if r and r[1] and not sampled:
                 sampled = True
                 ctx.rep.sample({"instance": r[0], "last_run": {a: (qstr(b) if isinstance(b, Fraction) else b) for a, b in r[1].items()}})
+    run_overshoot(ctx, rng, ctx.n(16, 80))
 
 
 STRIP = ("solution", "brute_force_optimum", "cover", "has_factor_lt1", "has_factor_gt1")
@@ -260,6 +289,7 @@ def search(ctx):
     for cls in ["kMinPathError", "kMinPathErrorCycles"]:
         for it in range(60):
             run_instance(ctx, rng, cls, suite="search")
+    run_overshoot(ctx, rng, 40, suite="search")
 
 
 def replay(ctx, payload):
